@@ -73,27 +73,34 @@ func main() {
 		}
 		code := r.Finish()
 		pprof.StopCPUProfile()
+		sim.CleanupTemp()
 		os.Exit(code)
 	case "c07worker":
 		idx, _ := strconv.Atoi(os.Args[3])
 		n, _ := strconv.Atoi(os.Args[4])
 		checks.C07Worker(os.Args[2], idx, n, len(os.Args) > 5 && os.Args[5] == "thorough")
+		sim.CleanupTemp()
 	case "c07local":
 		d, _ := strconv.Atoi(os.Args[3])
 		checks.C07LocalWorker(os.Args[2], d)
+		sim.CleanupTemp()
 	case "c07clock":
 		checks.C07Clock(os.Args[2], os.Args[3])
+		sim.CleanupTemp()
 	case "c08sched":
 		b, _ := strconv.Atoi(os.Args[3])
 		sec, _ := strconv.Atoi(os.Args[4])
 		checks.C08SchedWorker(os.Args[2], b, sec)
+		sim.CleanupTemp()
 	case "c08race":
 		n, _ := strconv.Atoi(os.Args[2])
 		checks.C08RaceWorker(n)
+		sim.CleanupTemp()
 	case "c19worker":
 		from, _ := strconv.Atoi(os.Args[3])
 		to, _ := strconv.Atoi(os.Args[4])
 		checks.C19Worker(os.Args[2], from, to, len(os.Args) > 5 && os.Args[5] == "thorough")
+		sim.CleanupTemp()
 	case "replay":
 		if len(os.Args) < 3 {
 			usage()
